@@ -1,6 +1,6 @@
 /* C09 writer: WriteReal(double) (read_func.cc) formats with "%.15G" and then forces the decimal point Part 21 requires.
  * Decimal formatting is not modelled: sprintf is replaced by a harness stub that returns an ARBITRARY string of the
- * %.15G output grammar   -? d+ ( . d+ )? ( E [+-] d d+ )?    (symbolic bytes g[], constrained by that grammar), also "INF"/"NAN" excluded.
+ * %.15G output grammar   -? d+ ( . d+ )? ( E [+-] d d+ )?    restricted to the canonical texts the real formatter prints (symbolic bytes g[]); "INF"/"NAN" excluded.
  * Assert: the result is a Part 21 REAL token   [sign] d+ "." d* [ "E" [sign] d+ ]   with exactly the digits sprintf produced:
  * a decimal point is present, the exponent letter is upper case, nothing else is changed. */
 #ifndef NG
@@ -28,6 +28,16 @@ void harness(void) {
     if(ok && p < len && g[p] == '.') { int f0; haspoint = 1; p++; f0 = p; while(p < len && isdig(g[p])) p++; if(p == f0) ok = 0; }
     if(ok && p < len && g[p] == 'E') { int d1; hasexp = 1; p++; if(p < len && (g[p] == '+' || g[p] == '-')) p++; else ok = 0; d1 = p; while(p < len && isdig(g[p])) p++; if(p - d1 < 2) ok = 0; }
     ASSUME(ok && p == len && len > 0);
+    /* canonical %.15G texts only (what the real formatter can print), so that every counterexample replays on the real sprintf:
+     * no superfluous leading or trailing zeros; with an exponent the integer part is one non-zero digit and the exponent has 2-3 digits
+     * in the range where %G switches to scientific notation (>= +15, <= -05); without one the value is 0 or >= 0.0001 */
+    { int a = g[0] == '-' ? 1 : 0, ip = a, fz = 0, e0 = 0, k, canon = 1; long ev = 0;
+      while(ip < len && isdig(g[ip])) ip++;                       /* ip: end of the integer part */
+      if(ip - a > 1 && g[a] == '0') canon = 0;
+      if(haspoint) { int fe = ip + 1; while(fe < len && isdig(g[fe])) fe++; if(g[fe - 1] == '0') canon = 0; for(k = ip + 1; k < fe && g[k] == '0'; k++) fz++; if(ip - a == 1 && g[a] == '0' && !hasexp && fz > 3) canon = 0; }
+      if(hasexp) { if(ip - a != 1 || g[a] == '0') canon = 0; for(k = 0; k < len; k++) if(g[k] == 'E') e0 = k; { int nd = len - (e0 + 2); if(nd > 3 || (nd == 3 && g[e0 + 2] == '0')) canon = 0; for(k = e0 + 2; k < len; k++) ev = ev * 10 + (g[k] - '0'); }
+                   if(ev > 308) canon = 0; if(g[e0 + 1] == '+' && ev < 15) canon = 0; if(g[e0 + 1] == '-' && ev < 5) canon = 0; }
+      ASSUME(canon); }
 #ifdef NATIVE
     n = w_write_real(strtod(g, 0), out, NG + 6);
 #else
@@ -42,10 +52,14 @@ void harness(void) {
       if(out[q] == 'E') { int d1; q++; if(out[q] == '+' || out[q] == '-') q++; d1 = q; while(isdig(out[q])) q++; if(q == d1) r = 0; }
       CHECK(r && out[q] == 0, "written REAL is a grammar-conforming token");
       CHECK(pt, "written REAL always has a decimal point"); }
-#ifndef NATIVE
-    /* digits unchanged: removing the inserted point from out gives g */
-    { int a = 0, b = 0, same = 1; for(i = 0; i < NG + 5; i++) { if(out[a] == '.' && !haspoint) a++; if(out[a] != g[b]) same = 0; if(!out[a] || !g[b]) break; a++; b++; } CHECK(same, "only a decimal point is inserted, the digits and the exponent are what the formatter produced"); }
+    /* digits unchanged: removing the inserted point from out gives the formatter's text (CBMC: the stub's g; native replay: what the real
+     * sprintf("%.15G") prints for the replayed value) */
+    { const char *ft = g; int fp = haspoint; int a = 0, b = 0, same = 1;
+#ifdef NATIVE
+      static char ref[64]; int k; snprintf(ref, sizeof ref, "%.15G", strtod(g, 0)); ft = ref; fp = 0; for(k = 0; ref[k]; k++) if(ref[k] == '.') fp = 1;
 #endif
+      for(i = 0; i < NG + 5; i++) { if(out[a] == '.' && !fp) a++; if(out[a] != ft[b]) same = 0; if(!out[a] || !ft[b]) break; a++; b++; }
+      CHECK(same, "only a decimal point is inserted, the digits and the exponent are what the formatter produced"); }
     (void)hasexp; (void)n;
     VERIF_END();
 }
